@@ -465,6 +465,59 @@ def run(ctx):
     r = ctx.rule("C07-R10", "EXC", "conversion by the declared type raises nothing but ValueError: every builtin conversion in utils.string sits in "
                  "a try that covers all classes it can raise (TypeError for None / a list, too) and re-raises ValueError (same rule as C02-R4)", reference=2)
     conversion_exc_rule(ctx, r)
+
+    # ---------------------------------------------------------------- R11
+    r = ctx.rule("C07-R11", "TABLE", "conversion returns a value of the declared type: every return of a converter is None (nullable arm), a literal of the type, "
+                 "the builtin conversion's result, or the input itself under an isinstance test for exactly that type (bool is not int: 1 is not True)", reference=4)
+    smod_ = p.modules["clikit.utils.string"]
+    TYPES = {"parse_boolean": "bool", "parse_int": "int", "parse_float": "float"}
+    for fname, tname in sorted(TYPES.items()):
+        fn = smod_.functions.get(fname)
+        ctx.require(fn is not None, "utils.string.%s missing" % fname)
+        cfg = ctx.cfg(fn)
+        prm0 = fn.params[0]
+        for ret in q.returns(fn):
+            v = ret.value
+            if v is None:
+                r.ok("%s: bare return (nullable)" % fn.short)
+                continue
+            if isinstance(v, ast.Constant) and type(v.value).__name__ == tname:
+                r.ok("%s: %s" % (fn.short, norm(ret)))
+                continue
+            if isinstance(v, ast.Call) and isinstance(v.func, ast.Name) and v.func.id == tname:
+                r.ok("%s: %s" % (fn.short, norm(ret)))
+                continue
+            if isinstance(v, ast.Name) and v.id == prm0:
+                ok_ = False
+                for rn in cfg.nodes_of(ret):
+                    g = guarded_by(cfg, rn, lambda e: isinstance(e, ast.Call) and isinstance(e.func, ast.Name) and e.func.id == "isinstance" and len(e.args) == 2
+                                   and isinstance(e.args[0], ast.Name) and e.args[0].id == prm0 and isinstance(e.args[1], ast.Name) and e.args[1].id == tname, polarity=True)
+                    ok_ = g is not None
+                if ok_:
+                    r.ok("%s: input returned under isinstance(%s, %s)" % (fn.short, prm0, tname))
+                    continue
+            r.fail(fn, ret, norm(ret), "%s can return `%s`, which is not known to be a %s: a %s-typed option or argument hands the handler a value of another type" % (fn.short, norm(v), tname, tname.upper() if tname != "bool" else "BOOLEAN"))
+
+    # ---------------------------------------------------------------- R12
+    r = ctx.rule("C07-R12", "KEY", "an alias is filed by what it is after its dash prefix was removed: the value whose length decides short / long is the value that is "
+                 "validated and stored (with or without the dash prefix the same alias lands in the same list)", reference=1)
+    n12 = 0
+    for name_, m_ in sorted(copt.methods.items()):
+        for node in walk_no_nested(m_.node):
+            if isinstance(node, ast.If) and isinstance(node.test, ast.Compare) and isinstance(node.test.left, ast.Call) and isinstance(node.test.left.func, ast.Name) and node.test.left.func.id == "len" \
+                    and node.test.left.args and isinstance(node.test.left.args[0], ast.Name):
+                v = node.test.left.args[0].id
+                used = {a.id for st in node.body + node.orelse for c in walk_no_nested(st) if isinstance(c, ast.Call) for a in c.args if isinstance(a, ast.Name)}
+                if not used:
+                    continue
+                n12 += 1
+                if v in used:
+                    r.ok("%s: len(%s) decides, %s is validated and stored" % (m_.short, v, v))
+                else:
+                    r.fail(m_, node.test, "len(%s) decides but %s is stored" % (v, ", ".join(sorted(used))), "%s measures `%s` but validates and stores `%s`: an alias given with its dash ('-a') is filed as a "
+                           "long alias of one character" % (m_.short, v, ", ".join(sorted(used))))
+    if n12 == 0:
+        r.vacuous_ok = True
     return ctx.results
 
 
